@@ -663,6 +663,12 @@ def parse_match_rule(text):
     return out
 
 
+def format_match_rule(pairs):
+    """The rule text for (key, value) pairs, written the way the specification asks: values in apostrophes, an
+    apostrophe inside a value as '\\'' (inverse of parse_match_rule)."""
+    return ','.join("%s='%s'" % (k, str(v).replace("'", "'\\''")) for k, v in pairs)
+
+
 MTYPE_NAMES = {'method_call': 1, 'method_return': 2, 'error': 3, 'signal': 4}
 
 
